@@ -211,6 +211,13 @@ def run(prog, R):
             lp = [c for c in ps[0].calls if c[0] == "oq3_parser::lexed_str::LexedStr::push"]
             ok = len(lp) == 1 and lp[0][1][1] == ("adt", "oq3_parser::syntax_kind::syntax_kind_enum::SyntaxKind::EOF", ()) and lp[0][1][2] == ("field", ("arg", 1, "self"), 1)
         R.ob("C14.4-final-offset", "finalize pushes (EOF, offset)", ok, fe.at, "")
+    # every table handed out ends with that sentinel: each returning path of LexedStr::new returns the value of
+    # finalize_with_eof (len() = kind.len() - 1, kind(i), text_range(i) all rely on the EOF entry being there)
+    if ln:
+        rets = [deep_strip(p_.env.get(0)) for p_ in SymExec(prog, ln, max_visits=2, max_paths=800).paths() if "__diverged__" not in p_.env and "__cut__" not in p_.env]
+        badr = [show(r_)[:80] for r_ in rets if not (isinstance(r_, tuple) and r_[0] == "call" and r_[1].endswith("Converter::finalize_with_eof"))]
+        R.ob("C14.4-final-offset", "every table returned by LexedStr::new went through finalize_with_eof", bool(rets) and not badr, ln.at,
+             f"{len(rets)} returning path(s)" if rets and not badr else f"a path returns {badr[:2]}: a token table without the final (EOF, input length) entry: len() underflows and the last token has no end offset")
     # who may write Converter.offset: initialised by Converter::new, advanced by Converter::push by the token's length
     # and nowhere else (skipping bytes without a token leaves them outside every token)
     ws = set()
